@@ -29,6 +29,8 @@ use crate::sched::{run_sim, wait_quiescent, SchedCfg, SimEnd};
 pub enum RSpec {
     Ok,
     OkNoParams,
+    /// a final reply without `error` whose parameters do not fit a typed reply struct: {"token": 5}
+    OkIllTyped,
     /// name: 0 InterfaceNotFound, 1 MethodNotFound, 2 MethodNotImplemented, 3 InvalidParameter,
     /// 4 custom error; params: 0 proper, 1 member absent, 2 ill-typed, 3 other members only
     Err { name: u8, params: u8 },
@@ -37,6 +39,8 @@ pub enum RSpec {
 #[derive(Clone, Debug, Serialize, Deserialize, PartialEq)]
 pub enum KOp {
     Call(RSpec),
+    /// call() whose reply type is a struct with a required string member `token` (not a bare Value)
+    CallTyped(RSpec),
     Oneway,
     /// call(), then a second call() on the same call object
     Resend(RSpec),
@@ -88,6 +92,7 @@ fn final_frame(spec: &RSpec, token: &str) -> Value {
     match spec {
         RSpec::Ok => json!({"parameters": {"token": token}}),
         RSpec::OkNoParams => json!({}),
+        RSpec::OkIllTyped => json!({"parameters": {"token": 5}}),
         RSpec::Err { name, params } => {
             let n = if (*name as usize) < 4 { STD_ERR[*name as usize].0 } else { CUSTOM_ERR };
             let mut m = serde_json::Map::new();
@@ -105,6 +110,7 @@ fn expected_outcome(spec: &RSpec, token: &str) -> String {
     match spec {
         RSpec::Ok => format!("Ok:{}", json!({ "token": token })),
         RSpec::OkNoParams => "Ok:{}".to_string(),
+        RSpec::OkIllTyped => format!("Ok:{}", json!({"token": 5})),
         RSpec::Err { name, params } => {
             if (*name as usize) < 4 {
                 let kind = ["InterfaceNotFound", "MethodNotFound", "MethodNotImplemented", "InvalidParameter"][*name as usize];
@@ -147,6 +153,23 @@ fn err_outcome(e: &varlink::Error) -> String {
         ErrorKind::SerdeJsonDe(_) => "E:SerdeDe".into(),
         ErrorKind::SerdeJsonSer(_) => "E:SerdeSer".into(),
         other => format!("E:Other:{:?}", other),
+    }
+}
+
+/// a generated-style reply struct: decoding fails when `token` is missing or not a string
+#[derive(serde_derive::Deserialize, Debug)]
+pub struct TypedReply {
+    pub token: String,
+}
+
+/// what a typed call must hand back
+fn expected_typed(spec: &RSpec, token: &str) -> String {
+    match spec {
+        RSpec::Ok => format!("Ok:typed:{}", token),
+        // the reply is final and carries no error, but does not decode: an error for this call,
+        // and the connection is free again
+        RSpec::OkNoParams | RSpec::OkIllTyped => "E:Serde".to_string(),
+        other => expected_outcome(other, token),
     }
 }
 
@@ -209,6 +232,21 @@ fn run_task(net: NetRef, conn: Arc<shuttle::sync::RwLock<Connection>>, task: usi
                     let ret = net.stamp(format!("ret {} resend", token));
                     rec(OpRec { task, op: oi, what: "resend", item: 0, token: token.clone(), inv, ret, outcome: outcome_of(&r) });
                 }
+            }
+            KOp::CallTyped(spec) => {
+                let mut mc = MethodCall::<Value, TypedReply, varlink::Error>::new(
+                    conn.clone(),
+                    "org.sim.k.Do",
+                    json!({"token": token, "spec": {"final": spec_json(spec)}}),
+                );
+                let inv = net.stamp(format!("inv {} call", token));
+                let r = mc.call();
+                let ret = net.stamp(format!("ret {} call", token));
+                let outcome = match &r {
+                    Ok(t) => format!("Ok:typed:{}", t.token),
+                    Err(e) => err_outcome(e),
+                };
+                rec(OpRec { task, op: oi, what: "call", item: 0, token: token.clone(), inv, ret, outcome });
             }
             KOp::Oneway => {
                 let mut mc = new_call(&token, json!({"final": spec_json(&RSpec::Ok)}));
@@ -527,6 +565,20 @@ pub fn judge_k(case: &KCase, end: &SimEnd, o: &KObs) -> (Vec<Violation>, bool) {
                     ));
                 }
                 if main.outcome == "E:Busy" && !faulty && !busy_legit(o, main) {
+                    // C05's last clause: after a `more` iteration has ended the connection is free
+                    let after_iteration = o.ops.iter().any(|r| {
+                        (r.what == "item" || r.what == "end") && r.ret < main.inv && (r.what == "end" || !r.outcome.contains("\"i\":"))
+                    });
+                    if after_iteration {
+                        v.push(viol(
+                            "C05",
+                            "connection-not-free-after-iteration",
+                            format!(
+                                "{} (events {}..{}) failed with ConnectionBusy: a more-iteration had ended before and no call owned the connection during the attempt",
+                                token, main.inv, main.ret
+                            ),
+                        ));
+                    }
                     v.push(viol(
                         "C07",
                         "busy-without-cause",
@@ -561,6 +613,17 @@ pub fn judge_k(case: &KCase, end: &SimEnd, o: &KObs) -> (Vec<Violation>, bool) {
                         if o.arrivals.iter().filter(|a| a.token == token).count() > 1 {
                             v.push(viol("C07", "second-send", format!("{}: the request was written twice", token)));
                         }
+                    }
+                }
+                KOp::CallTyped(spec) => {
+                    let want = expected_typed(spec, &token);
+                    let ok = if want == "E:Serde" { main.outcome.starts_with("E:Serde") } else { main.outcome == want };
+                    if !ok && !(faulty && conn_level(&main.outcome)) {
+                        v.push(viol(
+                            "C07",
+                            "outcome",
+                            format!("{} typed call(): server replied {} -> expected {}, got {}", token, final_frame(spec, &token), want, main.outcome),
+                        ));
                     }
                 }
                 KOp::Oneway => {
@@ -814,7 +877,7 @@ pub const STUB_K: [&str; 3] = [
 ];
 
 fn all_specs() -> Vec<RSpec> {
-    let mut v = vec![RSpec::Ok, RSpec::OkNoParams];
+    let mut v = vec![RSpec::Ok, RSpec::OkNoParams, RSpec::OkIllTyped];
     for name in 0..5u8 {
         for params in 0..4u8 {
             v.push(RSpec::Err { name, params });
@@ -828,6 +891,7 @@ fn op_alphabet() -> Vec<KOp> {
         KOp::Call(RSpec::Ok),
         KOp::Call(RSpec::Err { name: 1, params: 0 }),
         KOp::Call(RSpec::Err { name: 4, params: 0 }),
+        KOp::CallTyped(RSpec::OkIllTyped),
         KOp::Oneway,
         KOp::Resend(RSpec::Ok),
         KOp::More { conts: 0, fin: RSpec::Ok, nexts: 2, nested: false },
@@ -840,7 +904,8 @@ fn op_alphabet() -> Vec<KOp> {
 
 fn random_op(rng: &mut Rng, specs: &[RSpec], allow_abandon: bool) -> KOp {
     match rng.below(10) {
-        0..=3 => KOp::Call(rng.pick(specs).clone()),
+        0..=2 => KOp::Call(rng.pick(specs).clone()),
+        3 => KOp::CallTyped(rng.pick(specs).clone()),
         4 | 5 => KOp::Oneway,
         6 => KOp::Resend(rng.pick(specs).clone()),
         7 => {
@@ -901,11 +966,15 @@ pub fn c07_plan(tier: Tier) -> Plan {
         let specs = all_specs();
         spaces.push(Space {
             name: "K.reply.all",
-            size: specs.len() as u64 * 2,
+            size: specs.len() as u64 * 3,
             exhaustive: true,
             gen: Box::new(move |idx, seed| {
-                let spec = specs[(idx / 2) as usize].clone();
-                let op = if idx % 2 == 0 { KOp::Call(spec) } else { KOp::More { conts: 1, fin: spec, nexts: 3, nested: false } };
+                let spec = specs[(idx / 3) as usize].clone();
+                let op = match idx % 3 {
+                    0 => KOp::Call(spec),
+                    1 => KOp::CallTyped(spec),
+                    _ => KOp::More { conts: 1, fin: spec, nexts: 3, nested: false },
+                };
                 Case::K(base_case(vec![vec![op, KOp::Call(RSpec::Ok)]], SchedCfg::uniform(seed)))
             }),
         });
@@ -987,7 +1056,7 @@ pub fn c07_plan(tier: Tier) -> Plan {
     }
     Plan {
         spaces,
-        rule: "K1: the real client against a scripted server on a simulated socket pair. (a) every reply object (with/without error; the four standard error names and a custom one, each with proper / absent / ill-typed / foreign parameters) through call() and as the final reply of a more() iteration; (b) one thread, every operation sequence over a 10-operation alphabet {call ok/std error/custom error, oneway, second send on the same object, more with 0..2 continues replies ending in a result or an error, an error item carrying continues:true in mid-stream, new call while iterating} up to length 3 (quick) / 4 (thorough), complete; (c) 2..8 threads sharing one Arc<RwLock<Connection>>, 1..6 random operations each, under seeded schedules, with client short reads / short writes, replies released in random chunks, sometimes before quiescence; (d) the same with EINTR on client reads and the server closing in mid-stream (outcomes relaxed to: expected result or a connection-level error, never wrong data). Oracles: bytes at the server are whole requests, at most one non-oneway request in flight, a refused call leaves no bytes, every result carries its own token and the mapped error kind, ConnectionBusy only when another call's ownership interval (event sequence numbers) overlaps the attempt, second send = MethodCalledAlready, no hang. Distinct = (case, hash of the context-switch sequence).".into(),
+        rule: "K1: the real client against a scripted server on a simulated socket pair. (a) every reply object (with/without error; the four standard error names and a custom one, each with proper / absent / ill-typed / foreign parameters) plus results without parameters and with ill-typed parameters — through call() with a Value reply type, through call() with a typed reply struct, and as the final reply of a more() iteration; (b) one thread, every operation sequence over an 11-operation alphabet {call ok/std error/custom error, a call with a typed reply struct answered with parameters that do not decode, oneway, second send on the same object, more with 0..2 continues replies ending in a result or an error, an error item carrying continues:true in mid-stream, new call while iterating} up to length 3 (quick) / 4 (thorough), complete; (c) 2..8 threads sharing one Arc<RwLock<Connection>>, 1..6 random operations each, under seeded schedules, with client short reads / short writes, replies released in random chunks, sometimes before quiescence; (d) the same with EINTR on client reads and the server closing in mid-stream (outcomes relaxed to: expected result or a connection-level error, never wrong data). Oracles: bytes at the server are whole requests, at most one non-oneway request in flight, a refused call leaves no bytes, every result carries its own token and the mapped error kind, ConnectionBusy only when another call's ownership interval (event sequence numbers) overlaps the attempt, second send = MethodCalledAlready, no hang. Distinct = (case, hash of the context-switch sequence).".into(),
         level: "exploration",
         real: REAL_K.to_vec(),
         stub: STUB_K.to_vec(),
@@ -1049,6 +1118,40 @@ pub fn c05_spaces(tier: Tier) -> Vec<Space> {
                 if rng.chance(1, 4) {
                     c.eof_after = Some(rng.range(0, 400) as usize);
                 }
+                Case::K(c)
+            }),
+        });
+    }
+    {
+        // several threads share the connection while iterations end: the hand-back of the connection
+        // at the final reply competes with the other threads' attempts
+        let n = if tier == Tier::Quick { 8_000 } else { 250_000 };
+        let specs = all_specs();
+        spaces.push(Space {
+            name: "K.stream.threads",
+            size: n,
+            exhaustive: false,
+            gen: Box::new(move |_idx, seed| {
+                let mut rng = Rng::new(seed);
+                let nt = rng.range(2, 4) as usize;
+                let tasks: Vec<Vec<KOp>> = (0..nt)
+                    .map(|t| {
+                        (0..rng.range(1, 5))
+                            .map(|_| {
+                                if t == 0 || rng.chance(1, 2) {
+                                    let k = rng.range(0, 4) as u8;
+                                    KOp::More { conts: k, fin: rng.pick(&specs).clone(), nexts: k + 1 + rng.range(0, 1) as u8, nested: false }
+                                } else if rng.chance(1, 2) {
+                                    KOp::Oneway
+                                } else {
+                                    KOp::Call(rng.pick(&specs).clone())
+                                }
+                            })
+                            .collect()
+                    })
+                    .collect();
+                let mut c = base_case(tasks, SchedCfg::random(&mut rng, 1));
+                io_plans(&mut rng, &mut c, false);
                 Case::K(c)
             }),
         });
